@@ -17,4 +17,5 @@ let find (id : string) : sx -> sx =
   | "C18" -> model_C18
   | "C20" -> model_C20
   | "C19" -> model_C19
+  | "C03" -> model_C03
   | _ -> failwith ("no extracted model for " ^ id)
